@@ -429,6 +429,24 @@ def h_downcast_ref(ex, name, args, path, depth, caller):
     raise Unsupported("downcast_ref of %r" % (v,))
 
 
+def h_currency_eq(ex, name, args, path, depth, caller):
+    a, b = deref(args[0]), deref(args[1])
+    if isinstance(a, CurrencyV) and isinstance(b, CurrencyV):
+        r = a.id == b.id
+        yield Outcome("return", path, z3.Not(r) if name.endswith("::ne") else r)
+        return
+    raise Unsupported("currency comparison on %r" % (a,))
+
+
+def h_rc_ptr_eq(ex, name, args, path, depth, caller):
+    a, b = deref(args[0]), deref(args[1])
+    if isinstance(a, CurrencyV) and isinstance(b, CurrencyV):
+        # distinct Rc allocations of one currency are not modelled: pointer identity = currency identity
+        yield Outcome("return", path, a.id == b.id)
+        return
+    raise Unsupported("Rc::ptr_eq on %r" % (a,))
+
+
 def h_rc_new(ex, name, args, path, depth, caller):
     yield Outcome("return", path, args[0])
 
@@ -498,6 +516,35 @@ def h_td_cmp(ex, name, args, path, depth, caller):
     yield Outcome("return", path, r)
 
 
+def h_int_into(ex, name, args, path, depth, caller):
+    m = re.match(r"^<(\w+) as (?:Into|From)<(\w+)>>::(into|from)$", name)
+    src, dst = (m.group(1), m.group(2)) if m.group(3) == "into" else (m.group(2), m.group(1))
+    a = deref(args[0])
+    if dst == "f64":
+        yield Outcome("return", path, ex.i_to_float(a))
+        return
+    bits, signed = INT_TYPES[dst]
+    yield Outcome("return", path, IntV(a.t, bits, signed))   # lossless widening only (From/Into between integers)
+
+
+def h_int_pow(ex, name, args, path, depth, caller):
+    """base.pow(exp) with a small exponent: If-chain over 0..19; overflow panics (dev profile)"""
+    b, e = deref(args[0]), deref(args[1])
+    if not (z3.is_int_value(b.t) or isinstance(b.t, int)):
+        raise Unsupported("pow with a symbolic base")
+    base = b.t.as_long() if z3.is_expr(b.t) else int(b.t)
+    val = z3.IntVal(0)
+    for k in range(19, -1, -1):
+        val = z3.If(e.t == k, z3.IntVal(base ** k), val)
+    ok = z3.And(e.t >= 0, e.t <= 19, val <= b.hi())
+    bad = path.add(z3.Not(ok))
+    if ex.feasible(bad):
+        yield panic(bad, "attempt to multiply with overflow (pow)", caller.name)
+    okp = path.add(ok)
+    if ex.feasible(okp):
+        yield Outcome("return", okp, IntV(val, b.bits, b.signed))
+
+
 def h_int_abs(ex, name, args, path, depth, caller):
     a = deref(args[0])
     bad = path.add(a.t == a.lo())
@@ -549,6 +596,8 @@ def install(ex):
     add(r"^<\w+ as DataItem>::\w+$", h_static_dataitem)
     add(r"^<\(dyn Any \+ 'static\)>::downcast_ref::<.*>$", h_downcast_ref)
     add(r"^Rc::<.*>::new$", h_rc_new)
+    add(r"^<(Rc<)?(types::)?CurrencyInfo>? as PartialEq>::(eq|ne)$", h_currency_eq)
+    add(r"^Rc::<(types::)?CurrencyInfo>::ptr_eq$", h_rc_ptr_eq)
     add(r"^Money::(get_price|get_currency)$", h_money_get)
     add(r"^<(alloc::string::)?String as core::ops::Index<RangeFull>>::index$", h_string_index_full)
     add(r"^(chrono::)?(TimeDelta|Duration)::(seconds|minutes|hours|days|weeks)$", h_td_ctor)
@@ -557,6 +606,8 @@ def install(ex):
     add(r"^<(chrono::)?(TimeDelta|Duration) as (Add|Sub)>::(add|sub)$", h_td_addsub)
     add(r"^<(chrono::)?(TimeDelta|Duration|NaiveDateTime|NaiveDate) as PartialOrd>::(gt|lt|ge|le)$", h_td_cmp)
     add(r"^<(chrono::)?(TimeDelta|Duration|NaiveDateTime|NaiveDate) as PartialEq>::(eq|ne)$", h_td_cmp)
+    add(r"^<(u8|u16|u32|u64|usize|i8|i16|i32|i64) as (Into|From)<(u8|u16|u32|u64|usize|i8|i16|i32|i64|f64)>>::(into|from)$", h_int_into)
+    add(r"^core::num::<impl (u8|u16|u32|u64|usize|i32|i64)>::pow$", h_int_pow)
     add(r"^core::num::<impl i64>::abs$", h_int_abs)
     add(r"^core::num::<impl i64>::is_negative$", h_int_is_negative)
     ex.handlers = H + ex.handlers
